@@ -28,21 +28,20 @@ MARKER_STR = 'm:'
 NA_STR = 'z:'
 REMOVE2_STR = 'x:'
 REMOVE3_STR = '-:'
+# Payloads (units, display names, URIs) may contain any character, including
+# newlines, hence DOTALL and no MULTILINE: '$' must only match at the end.
 NUMBER_RE = re.compile(r'^n:(-?\d+(:?\.\d+)?(:?[eE][+\-]?\d+)?)(:? (.*))?$',
-                       flags=re.MULTILINE)
+                       flags=re.DOTALL)
 REF_RE = re.compile(r'^r:([a-zA-Z0-9_:\-.~]+)(:? (.*))?$',
-                    flags=re.MULTILINE)
-DATE_RE = re.compile(r'^d:(\d{4})-(\d{2})-(\d{2})$', flags=re.MULTILINE)
-TIME_RE = re.compile(r'^h:(\d{2}):(\d{2})(:?:(\d{2}(:?\.\d+)?))?$',
-                     flags=re.MULTILINE)
+                    flags=re.DOTALL)
+DATE_RE = re.compile(r'^d:(\d{4})-(\d{2})-(\d{2})$')
+TIME_RE = re.compile(r'^h:(\d{2}):(\d{2})(:?:(\d{2}(:?\.\d+)?))?$')
 DATETIME_RE = re.compile(r'^t:(\d{4}-\d{2}-\d{2}T' \
                          r'\d{2}:\d{2}(:?:\d{2}(:?\.\d+)?)' \
-                         r'(:?[zZ]|[+\-]\d+:?\d*))(:? ([A-Za-z\-+_0-9]+))?$',
-                         flags=re.MULTILINE)
-URI_RE = re.compile(r'u:(.+)$', flags=re.MULTILINE)
-BIN_RE = re.compile(r'b:(.+)$', flags=re.MULTILINE)
-COORD_RE = re.compile(r'c:(-?\d*\.?\d*),(-?\d*\.?\d*)$',
-                      flags=re.MULTILINE)
+                         r'(:?[zZ]|[+\-]\d+:?\d*))(:? ([A-Za-z\-+_0-9]+))?$')
+URI_RE = re.compile(r'u:(.*)$', flags=re.DOTALL)
+BIN_RE = re.compile(r'b:(.*)$', flags=re.DOTALL)
+COORD_RE = re.compile(r'c:(-?\d*\.?\d*),(-?\d*\.?\d*)$')
 
 STR_ESC_RE = re.compile(r'\\([bfnrt"\\$]|u[0-9a-fA-F]{4})')
 
